@@ -251,4 +251,24 @@ Section Meaning.
     - apply (idiv_generic r_dx r_ax a 16 eq_refl eq_refl Oa eq_refl eq_refl Sa "idiv16" "irem16" eq_refl eq_refl ltac:(no_rc) ltac:(no_rc) named_idiv16 named_irem16 Nz Q).
     - apply (idiv_generic edx eax a 32 eq_refl eq_refl Oa eq_refl eq_refl Sa "idiv32" "irem32" eq_refl eq_refl ltac:(no_rc) ltac:(no_rc) named_idiv32 named_irem32 Nz Q).
   Qed.
+
+  (** mul, 16 and 32 bits: cf = of = 1 exactly when the upper half of the product is not zero, i.e. when the product does not fit n bits *)
+  Theorem mul_flags_value hi : ev (nonzero32 hi) = if ev hi =? 0 then 0 else 1.
+  Proof. unfold nonzero32. cbn [eval]. destruct (ev hi =? 0); reflexivity. Qed.
+  Theorem mul32_overflow a : operand_ok a = true -> size a = 32 -> (ev (EOp "umul32_hi" [eax; a]) =? 0) = (acc32 * ev a <? 2 ^ 32).
+  Proof.
+    intros Oa Sa. pose proof (mul32_value a Oa Sa) as V. destruct (operand_range rho mu iota a Oa) as [_ Ra]. rewrite Sa in Ra.
+    assert (Rx : 0 <= acc32 < 2 ^ 32) by (apply wrap_range; lia).
+    assert (Rh : 0 <= ev (EOp "umul32_hi" [eax; a])) by (rewrite (ev_named2 "umul32_hi" _ _ _ eq_refl (named_umul32_hi _ _)) by (cbn; lia); apply wrap_range; cbn; lia).
+    assert (Rl : 0 <= ev (EOp "umul32_lo" [eax; a]) < 2 ^ 32) by (rewrite (ev_named2 "umul32_lo" _ _ _ eq_refl (named_umul32_lo _ _)) by (cbn; lia); apply wrap_range; cbn; lia).
+    destruct (Z.eqb_spec (ev (EOp "umul32_hi" [eax; a])) 0) as [E|E]; destruct (Z.ltb_spec (acc32 * ev a) (2 ^ 32)) as [L|L]; try reflexivity; nia.
+  Qed.
+  Theorem mul16_overflow a : operand_ok a = true -> size a = 16 -> (ev (EOp "umul16_hi" [r_ax; a]) =? 0) = (acc16 * ev a <? 2 ^ 16).
+  Proof.
+    intros Oa Sa. pose proof (mul16_value a Oa Sa) as V. destruct (operand_range rho mu iota a Oa) as [_ Ra]. rewrite Sa in Ra.
+    assert (Rx : 0 <= acc16 < 2 ^ 16) by (apply wrap_range; lia).
+    assert (Rh : 0 <= ev (EOp "umul16_hi" [r_ax; a])) by (rewrite (ev_named2 "umul16_hi" _ _ _ eq_refl (named_umul16_hi _ _)) by (cbn; lia); apply wrap_range; cbn; lia).
+    assert (Rl : 0 <= ev (EOp "umul16_lo" [r_ax; a]) < 2 ^ 16) by (rewrite (ev_named2 "umul16_lo" _ _ _ eq_refl (named_umul16_lo _ _)) by (cbn; lia); apply wrap_range; cbn; lia).
+    destruct (Z.eqb_spec (ev (EOp "umul16_hi" [r_ax; a])) 0) as [E|E]; destruct (Z.ltb_spec (acc16 * ev a) (2 ^ 16)) as [L|L]; try reflexivity; nia.
+  Qed.
 End Meaning.
